@@ -326,7 +326,11 @@ class Case:
                 if isinstance(ans, str):
                     raise common.HarnessError("driver answered %r for a %s line of %r" % (ans, kind, self.desc()))
                 if kind == "cert" and fn == "bn":
-                    st, ex, dev, agg, mx = ans
+                    st, ex, dev, agg, mx, proved = ans
+                    if proved != (st and ex and agg):
+                        raise common.HarnessError("driver flags inconsistent: %r" % (ans,))
+                    if self.exact and not proved:
+                        self.problems.append("Lean-proved checker checkBnRat rejects the rows")
                     if not st:
                         self.problems.append("Lean checker: rows are not a partial matching of the two diagrams")
                     if self.exact and st and not ex:
@@ -488,9 +492,9 @@ def run(ctx):
     r = ctx.rng
     ctx.extra["source_digest"] = {"bottleneck": common.source_digest(FILES[0], ["bottleneck"]),
                                   "wasserstein": common.source_digest(FILES[1], ["wasserstein"])}
-    plan = [(8, ctx.n(260, 2500))]
+    plan = [(8, ctx.n(260, 6000))]
     if ctx.thorough:
-        plan += [(20, 500), (40, 250)]
+        plan += [(20, 1500), (40, 700)]
     else:
         plan += [(16, 30)]
     pairs = [(a, b, e, "corpus") for a, b, e in CORPUS]
@@ -517,7 +521,7 @@ def run(ctx):
                 ctx.count("size:%s" % ("0" if min(len(a), len(b)) == 0 else "<=8" if max(len(a), len(b)) <= 8 else "<=40"))
                 if c.res.get("sigma") is None:
                     ctx.count("sigma_not_captured")
-            if len(hs_pairs) < ctx.n(40, 120) and (idx < len(CORPUS) or r.random() < 0.2) and max(len(a), len(b)) <= 20:
+            if len(hs_pairs) < ctx.n(40, 250) and (idx < len(CORPUS) or r.random() < 0.2) and max(len(a), len(b)) <= 20:
                 hs_pairs.append((a, b, e))
             if len(batch) >= 400 or idx == len(pairs) - 1:
                 run_cases(ctx, batch)
@@ -558,7 +562,21 @@ def replay(ctx, rep):
     if rep.get("found_failing_input") is False:
         # correspondence-only replay: the property itself held on this input
         return not case.problems
-    return len(ctx.violations) == before
+    if len(ctx.violations) != before:
+        return False
+    # which maximum matching Hopcroft–Karp returns depends on the interpreter's hash seed (unknown for the
+    # in-process run that produced the replay): try a range of seeds in fresh interpreters
+    for s in range(12):
+        vals, errtxt = hashseed_run([[fn + ".m", A_, B_], [fn, A_, B_]], s)
+        if vals is None:
+            print("raised under PYTHONHASHSEED=%s: %s" % (s, errtxt)); return False
+        case = Case(fn, A_, B_, exact, hashseed=s)
+        case.res = {"dist": vals[0][0], "rows": vals[0][1], "plain": np.float64(vals[1])}
+        run_cases(ctx, [case])
+        if len(ctx.violations) != before:
+            print("fails under PYTHONHASHSEED=%d: %r" % (s, case.problems))
+            return False
+    return True
 
 
 MANIFEST = {
